@@ -15,6 +15,7 @@ Decided
       the offset starting at 0: an unmerged dataset exports exactly its own channel map
   A1  first dimension of every exported object table (see obligations/shape tables) - decided by the shape engine (C13.A1)
   +   no table write is skipped because the OUTPUT directory already holds the file (a re-export would keep a stale table)
+  +   U1 also when the saved value is a local with several definitions: each definition must be the model's spike times
 Not decided: equality of reloaded values, uint16 range of ids.
 """
 import ast
@@ -365,6 +366,12 @@ def u1_h1(ctx):
         c = saves.get(nm)
         v_x = mt.expand(c.args[1]) if c is not None and len(c.args) >= 2 else None
         other_attr = v_x is not None and not Pat().m(src, v_x) and isinstance(v_x, ast.Attribute) and Pat().m('self.model', v_x.value)
+        if isinstance(v_x, ast.Name):
+            # a local assigned on several paths: the file is written from EACH of its definitions on some path
+            cands = [mt.expand(a_.value) for a_ in mt.nodes(ast.Assign) if any(isinstance(t_, ast.Name) and t_.id == v_x.id for t_ in a_.targets)]
+            wrong = [x_ for x_ in cands if isinstance(x_, ast.Attribute) and Pat().m('self.model', x_.value) and not Pat().m(src, x_)]
+            if wrong:
+                other_attr, v_x = True, wrong[0]
         ctx.tri(v_x is not None and Pat().m(src, v_x), other_attr, 'C13.U1', mt, c or nm, '%s is written from the model\'s %s' % (nm, what),
                 '%s is written from `%s`, not from the model\'s %s' % (nm, unparse(v_x) if v_x is not None else '?', what), '%s: what is written was not recognised' % nm)
     mc = repo.lookup_method(cls, 'make_cluster_objects')
